@@ -1015,7 +1015,8 @@ MANIFEST = {
             "tied to the C++ by bit-exact lock-step runs of the real libompl against the compiled model with the output aliased "
             "to neither / from / to, plus the property itself evaluated on the implementation's outputs.",
     "note": "Trusted: Lean kernel, the three standard axioms, the hand-written model outside the inputs the correspondence explored, "
-            "the harness and the python oracle. Theorems are over the reals (rounding executed, not verified); SO(3) re-parameterisation, "
-            "Mobius/Klein/sphere laws beyond those stated in Props/C07.lean are compared, not proved.",
+            "the harness and the python oracle. Theorems are over the reals (rounding executed, not verified); SO(3) results need exactly-unit "
+            "quaternions and exclude the arcLength clamp band for proportional distance (F64); Mobius/Klein re-parameterisation across "
+            "the seam is compared, not proved.",
     "technique": "Lean 4 proof (case analysis on the SO(2) seam, structural induction over compounds) + differential correspondence + spec oracle",
 }
